@@ -71,7 +71,7 @@ func main() {
 	if cfgFilter != nil {
 		r.Cap("diagnostic run: C28_CFG_FILTER restricts family (a) to cases matching " + cfgFilter.String())
 	}
-	os.Remove(workDir() + "/guard_oom_cases.jsonl")
+	os.Remove(diagPath("guard_oom_cases", ".jsonl"))
 	var all []pviol
 	// ---- family (a)
 	if os.Getenv("C28_ONLY_REQ") == "" {
@@ -153,10 +153,10 @@ func childMain(w *worker) {
 	w.end()
 }
 
-// dumpAll writes every (signature, case) pair of this run to $VERIF_WORK/all_violations.jsonl (diagnostics for
+// dumpAll writes every (signature, case) pair of this run to /verif/.work/c28/all_violations.jsonl (diagnostics for
 // FINDING.md: the full list of inputs behind each signature; the evidence file keeps only the lowest index).
 func dumpAll(all []pviol) {
-	f, err := os.Create(workDir() + "/all_violations.jsonl")
+	f, err := os.Create(diagPath("all_violations", ".jsonl"))
 	if err != nil {
 		return
 	}
